@@ -172,6 +172,12 @@ def main():
                           'r,s arbitrary 16-bit values, recovery id arbitrary byte; toy curves %s (compact-recoverable on %s only)' % (toys if chk.thorough else toys[:1], toys[:1]))
         chk.outside.append('Verify with the compact-recoverable encoding on toy curves other than %s (solver returns unknown within the limit; the recovery algebra on them is decided by C11)' % (toys[:1],))
 
+    # contracts this check's toy layer uses for routines named in the property's own file list: re-decided here (see common.include_dependency)
+    from .common import include_dependency
+    if not only or 'dep' in only:
+        include_dependency(chk, tasks, 'C04', '', 'verification computes u2*Q with the variable-time GLV multiply (toy layer: contract)')
+        include_dependency(chk, tasks, 'C05', 'table lookup basemult', 'verification computes u1*G with scalarBaseMultVartime (toy layer: contract)')
+        include_dependency(chk, tasks, 'C16', 'dsm', 'verification calls DoubleScalarMultBasepointVartime(u1, u2, Q) (toy layer: contract u1*G + u2*Q)')
     chk.run_tasks(tasks)
     chk.discharge()
     chk.finish()
